@@ -43,6 +43,8 @@ def run_pairs(ctx):
         dict(mode="shift", dev="film", xi=0.5, field=0.3, shift=(0.15, -0.09), steps=80, warm=20),
         dict(mode="shift", dev="bar", xi=2.0, field=0.1, current=2.0, shift=(0.1, 0.2), steps=80, warm=20, dt=2.0 ** -9),
         dict(mode="translate", dev="barhole", xi=0.5, field=0.3, current=2.0, offset=(1.5, -0.75), steps=60, warm=10),
+        # the same with a history: the device was used at xi = 1, its coherence length then assigned in place, re-meshed
+        dict(mode="shift", dev="film", xi=0.5, history="xi edited in place", field=0.3, shift=(0.15, -0.09), steps=40, warm=10),
         # time-dependent applied potential (field ramped over many steps; the link variables are refreshed during the run)
         dict(mode="shift", dev="film", field=0.0, ramp=(0.0, 0.1, 2.0), shift=(1.0, 1.0), steps=128, warm=0, k=8),
         dict(mode="shift", dev="bar", field=0.0, current=2.0, ramp=(0.05, 0.15, 3.0), shift=(1.2, -0.8), steps=160, warm=10, k=16),
@@ -100,7 +102,8 @@ AMPLIFICATION_PAIR = dict(mode="shift", dev="film", field=0.0, shift=(0.3, -0.2)
 def describe(a):
     if a.get("label"):
         return a["label"]
-    return "%s/%s%s/B=%s/I=%s/%s%s" % (a["mode"], a["dev"], ("/xi=%s" % a["xi"]) if a.get("xi") else "", ("ramp%s" % (a["ramp"],)) if a.get("ramp") else a["field"], a.get("current", "-"),
+    return "%s/%s%s/B=%s/I=%s/%s%s" % (a["mode"], a["dev"], ("/xi=%s%s" % (a["xi"], " (edited in place after use)" if a.get("history") else ""))
+                                      if a.get("xi") else "", ("ramp%s" % (a["ramp"],)) if a.get("ramp") else a["field"], a.get("current", "-"),
                                     ("offset=%s" % (a["offset"],)) if a["mode"] == "translate" else ("c=%s" % (a["shift"],)),
                                     "/screening tol=%g" % a["screening_tol"] if a.get("screening") else "")
 
@@ -148,13 +151,23 @@ def run(ctx):
         pairs.append(REST_PAIR)
     for a in pairs:
         jobs.append(("call", dict(module="harness.fvops", func="gauge_run_pair", args=a)))
+    # the uniform-field potential on position arrays of any length (one gauge constant for the whole array)
+    pot = [dict(source=src, B=B, N=N, seed=ctx.seed + k)
+           for k, (src, B, N) in enumerate([("constant", 0.4, 100), ("constant", 0.4, 2 ** 14 + 1), ("constant", -0.7, 40000),
+                                            ("ramp", 0.8, 2 ** 14 + 1), ("ramp", 0.8, 40000)]
+                                           + ([] if ctx.quick else [("constant", 1.3, 100000), ("ramp", -0.2, 70001), ("constant", 0.05, 16384)]))]
+    for a in pot:
+        jobs.append(("call", dict(module="harness.fvops", func="potential_gauge_trace", args=a)))
     control = dict(mode="shift", dev="bar", field=0.4, current=3.0, shift=(0.25, 0.4), steps=40, warm=30, break_seed=True)
     jobs.append(("call", dict(module="harness.fvops", func="gauge_run_pair", args=control)))
     res = rf.replay_all(ctx, jobs, nproc=8 if ctx.quick else None)
     nrefused = sum(1 for t in res[nexact: nexact + nfloat] if t["kind"] == "refused")
     res = [t for k, t in enumerate(res) if not (nexact <= k < nexact + nfloat and t["kind"] == "refused")]
     nfloat -= nrefused
-    traces, runs, ctl = res[: nexact + nfloat], res[nexact + nfloat: -1], res[-1]
+    traces, runs, potres, ctl = (res[: nexact + nfloat], res[nexact + nfloat: nexact + nfloat + len(pairs)],
+                                 res[nexact + nfloat + len(pairs): -1], res[-1])
+    if len(potres) != len(pot) or max(p["info"]["N"] for p in potres) <= 2 ** 14 or not any(a.get("history") for a in pairs):
+        raise core.MachineryFailure("C04: large-array potential family or device-history pair missing (vacuous)")
     # 3. code -> spec, operator level
     for t in traces:
         if t["kind"] == "exact":
@@ -195,6 +208,10 @@ def run(ctx):
                                  psi_moved=rr["info"]["psi_moved"],
                                  **({"screening_iterations": rr["info"]["screening_iterations"]["A"]} if a.get("screening") else {}))
                             for a, rr in zip(pairs, runs)]
+    for a, pr in zip(pot, potres):
+        tw.append({"tol": TOL, "minruns": 2, "ev": pr["ev"], "label": "uniform-field potential/%s/B=%s/N=%d positions" % (a["source"], a["B"], a["N"])})
+        ctx.note_case(("potential", a["source"], a["B"], a["N"]), a["N"] > 2 ** 14)
+    ctx.cov["potential_arrays"] = [dict(source=a["source"], N=a["N"], spread_of_residual=pr["info"]["spread_of_residual"]) for a, pr in zip(pot, potres)]
     acct = fvops.validate_twin(ctx, tw, "C04/runs")
     # the open known finding must still reproduce: the adaptive pure-gauge pair still differs
     namp = next(n for n, t in enumerate(tw) if t["label"] == AMPLIFICATION_LABEL)
